@@ -302,4 +302,23 @@ PROPS = {
         "assumptions": [],
         "partial": "proved: a pass never loses or reverts a write on either side (any tree, any hashes), and the point exchange for one node/edge leaves both sides with the newest point per identity. Not proved, and false in general (two open findings): that the hash comparison reaches every node that differs, i.e. convergence of whole trees; real-time forwarding is outside the model",
     },
+    "C04": {
+        "required_theorems": ["c04_recovered_consistent", "c04_all_or_nothing", "c04_acked_not_lost", "c04_batch_present", "gen_tx_pinned", "gen_pragmas_pinned"],
+        "n": {"quick": 250, "thorough": 6000},
+        "thorough_seeds": 4,
+        "rule": "a separate writer process (the harness binary in mode c04-writer) opens a store file and executes 5-35 batches, acknowledging each on stdout: a chain of 2-9 nodes (deep hash propagation), "
+                "sometimes a mirror, node-point batches of 1-4 or 20-100 points over 40 keys, edge-point batches; the parent kills it with SIGKILL after a delay drawn uniformly from the expected run time "
+                "(d cases: file initialised beforehand, root id and signing key recorded) or 0-30 ms after start on a file that does not exist yet (i cases: death during first-time initialisation), "
+                "re-opens the file with store.NewSqliteDb, dumps every row, compares root id and key, and performs one more write. Oracle = the dump is the state after exactly k or k+1 batches "
+                "(k = acknowledgements received), hashes consistent, file opens with the same root and key and accepts writes; distinct = distinct case line (kill instants are wall-clock dependent: "
+                "each run explores new instants; the evidence records how many kills fell inside the run and how often the batch in flight had been committed)",
+        "trusted": ["SQLite (modernc.org/sqlite) transactions: atomic, and durable against process death in WAL mode with synchronous=NORMAL — the parameter of the model; power loss / OS crash are outside (SIGKILL only)",
+                    "the kernel's page cache surviving the death of the process"],
+        "modelled": ["process death is modelled at the granularity of batches (Siot/Model/Crash.lean): the recovered store is a prefix state; that each batch is ONE transaction, with nothing executed outside it, "
+                     "a rollback before every early return and the root id written inside the root edge's transaction, is extracted from store/sqlite.go on every run (gen_tx_pinned)",
+                     "first-time initialisation (meta row, root edge, admin user, key) is several transactions: a death between them leaves a file that opens with root R and a key but, in a window of a few "
+                     "hundred microseconds, without the admin user (observed, documented in DESIGN.md; the property makes no claim about the admin user)"],
+        "assumptions": [],
+        "partial": "instants INSIDE a transaction are covered by SQLite's contract (parameter), not by a theorem about SQLite; the kill tests sample them",
+    },
 }
